@@ -1,4 +1,4 @@
-CONSTANTS Family = "seq"  MaxOps = 3  Bug = ""  Emit = TRUE
+CONSTANTS Family = "seq"  MaxOps = 3  Bug = ""  Emit = TRUE  Wide = FALSE
 CONSTANT Codes <- MCCodesQuick
 INIT Init
 NEXT Next
